@@ -108,6 +108,9 @@ void vh_ctx_clear_capture(vh_ctx_t * v);
 #ifndef VH_LIB_C89
 #define VH_LIB_C89 0
 #endif
+#ifndef VH_FLAVOUR_DEFAULT
+#define VH_FLAVOUR_DEFAULT 0
+#endif
 #define VH_LIB_DTOSTRE (USE_CUSTOM_DTOSTRE || VH_LIB_C89)   /* SCPI_dtostre instead of snprintf %g */
 #define VH_LIB_NO_STRTOF VH_LIB_C89                          /* decimal -> float goes through strtod (library's documented fallback) */
 
